@@ -2,6 +2,7 @@ package pbar
 
 import (
 	"io"
+	"sync"
 
 	"github.com/vbauerster/mpb/v8"
 )
@@ -33,6 +34,8 @@ func NewNoopBar() Bar {
 }
 
 type bar struct {
+	// mu guards the lazy creation of b: several ingest workers share one bar
+	mu    sync.Mutex
 	b     *mpb.Bar
 	c     *Container
 	total int64
@@ -50,11 +53,20 @@ func newBar(c *Container, total int64, name string, unit int) *bar {
 }
 
 func (b *bar) ensureInternalBar() {
+	b.mu.Lock()
+	defer b.mu.Unlock()
 	if b.b != nil {
 		return
 	}
 	b.c.ensureProgress()
 	b.b = b.c.addBar(b.total, b.name, b.unit)
+}
+
+// internalBar returns the underlying bar if it has been created
+func (b *bar) internalBar() *mpb.Bar {
+	b.mu.Lock()
+	defer b.mu.Unlock()
+	return b.b
 }
 
 func (b *bar) Incr() {
@@ -74,22 +86,24 @@ func (b *bar) IncrBy(n int) {
 }
 
 func (b *bar) Done() {
-	if b.b == nil {
+	ib := b.internalBar()
+	if ib == nil {
 		return
 	}
-	if b.b.IsRunning() {
-		b.b.SetTotal(-1, true)
-		b.b.Wait()
+	if ib.IsRunning() {
+		ib.SetTotal(-1, true)
+		ib.Wait()
 	}
 }
 
 func (b *bar) Abort() {
-	if b.b == nil {
+	ib := b.internalBar()
+	if ib == nil {
 		return
 	}
-	if b.b.IsRunning() {
-		b.b.Abort(true)
-		b.b.Wait()
+	if ib.IsRunning() {
+		ib.Abort(true)
+		ib.Wait()
 	}
 }
 
